@@ -10,6 +10,7 @@ import numpy as np
 from astropy.utils.exceptions import AstropyUserWarning
 
 from photutils.utils._parameters import as_pair
+from photutils.utils._quantity_helpers import process_quantities
 from photutils.utils._round import py2intround
 from photutils.utils.cutouts import _overlap_slices as overlap_slices
 
@@ -436,6 +437,11 @@ def centroid_sources(data, xpos, ypos, box_size=11, footprint=None, mask=None,
         plt.legend()
         plt.tight_layout()
     """
+    # data and error must both have (the same) units or both have none;
+    # checked here because errors raised by the centroid function are
+    # turned into NaN centroids below
+    process_quantities((data, kwargs.get('error')), ('data', 'error'))
+
     xpos = np.atleast_1d(xpos)
     ypos = np.atleast_1d(ypos)
     if xpos.ndim != 1:
